@@ -292,7 +292,7 @@ class CallMixin:
             return args[1]
         if name == "object.__setattr__":
             o, a, v = args
-            o.fields[a] = v
+            self.set_field(o.fields, a, v)
             return None
         if name in ("dataclasses.replace", "replace"):
             o = args[0]
